@@ -25,6 +25,8 @@ DECIDED_MORE = ('Also: the receiver of .format() does not derive from the reques
 DECIDED = DECIDED + ' ' + DECIDED_MORE
 DECIDED_R6 = ('Round 6: a translate table is evaluated (all five characters); an error built from an exception without a body does not fall back to the exception text.')
 DECIDED = DECIDED + ' ' + DECIDED_R6
+DECIDED_R7 = ('Round 7: the path re-reading handler covers UnicodeEncodeError; premises C09.c / C09.d for the Content-Type and identity of the error document.')
+DECIDED = DECIDED + ' ' + DECIDED_R7
 NOT_DECIDED = 'pages rendered with debug on (excluded by the statement); custom error handlers; html.escape itself (assumed).'
 ASSUMPTIONS = ['html.escape and the five replacements of html_escape neutralise markup', 'json.dumps yields valid JSON']
 
